@@ -218,3 +218,14 @@ package x509
 // (trusted frame, used by the TLS gating contracts: the certificate parser writes only memory it allocates)
 //@ (func ParseCertificate trusted
 //@   (ensures either (= (isnil result.0) (not (isnil result.1)))))
+// CreateCertificateRequest has the same convention; its five template loops are cut with the trivial invariant and its
+// safety obligations are unclaimed; the convention clause is proved at every return
+//@ (func CreateCertificateRequest sweep split-returns
+//@   (requires args (and (not (isnil template)) (not (isnil signer))))
+//@   (loop 1 (invariant any true))
+//@   (loop 2 (invariant any true))
+//@   (loop 3 (invariant any true))
+//@   (loop 4 (invariant any true))
+//@   (loop 5 (invariant any true))
+//@   (ghost-havoc sign.obj sign.len)
+//@   (ensures-internal convention (=> (isnil err) (= isSM2 (= (ghost sign.obj) (obj tbsCSRContents))))))
